@@ -7,7 +7,8 @@ def build_and_run(src, cxx="g++", flags="", name=None, timeout=1800, run_prefix=
     name = name or os.path.basename(src)[:-4]
     key = sha(HEADER, src, cxx, flags, VERIF + "/harness/fixed/checked_buffer.hpp", VERIF + "/corpus/replays/common.hpp")
     d = f"{CACHE}/fixed/{name}-{key}"
-    if not os.path.exists(d + "/done"):
+    with locked(f"fixed-{name}-{key}"):
+      if not os.path.exists(d + "/done"):
         os.makedirs(d, exist_ok=True)
         rc, out, dt = sh(f"{cxx} -std=c++17 {flags} -I{REPO}/include -I{os.path.dirname(src)} -o {d}/bin {src}", timeout=timeout)
         res = {"compile_rc": rc, "compile_out": out[-3000:], "run_rc": None, "run_out": ""}
@@ -17,7 +18,7 @@ def build_and_run(src, cxx="g++", flags="", name=None, timeout=1800, run_prefix=
             try: os.remove(d + "/bin")
             except OSError: pass
         json.dump(res, open(d + "/res.json", "w")); open(d + "/done", "w").write("ok")
-    return json.load(open(d + "/res.json"))
+      return json.load(open(d + "/res.json"))
 
 def run_fixed(rep, fname, cxx="g++", flags="", what="", run_prefix=""):
     """returns True when the program compiled, ran and reported no failure"""
